@@ -252,6 +252,9 @@ def answer (line : String) : String :=
       if bad.isEmpty && el > 0 then s!"model={_impl} holds=1"
       else s!"model=options-not-passed-through:{",".intercalate bad} holds=0"
     | ["wirereq", method, desc] => KV.OracleGW.opWireReq method desc _impl
+    | ["defaults"] =>
+      let m := KV.Group.expectedDefaultsObservation
+      s!"model={m} holds={if m == _impl then 1 else 0}"
     | ["coordaddr", host, port] =>
       -- FindCoordinator answered (host, port): the next connect dials exactly that address
       match port.toInt? with
